@@ -382,50 +382,79 @@ Definition drestart (x : dnode) (load_order : list str) : rres :=
   fold_left (fun acc dbn => dload_one acc dbn (files_of x dbn)) load_order
             (RNode (mkDN fresh (dn_files x))).
 
-(* ---- crash = the process is killed right after its N-th write/pwrite/rename/unlink -------- *)
-Definition traced (o : fop) : bool := match o with OpCreate _ => false | _ => true end.
+(* ---- crash = the process is killed on entering its i-th system call of one kind ------------
+   (strace fault injection counts per system call; the kill is delivered before the call runs) *)
+Inductive sysc := ScWrite | ScPwrite | ScRename | ScUnlink.
 
-Fixpoint take_traced (n : nat) (ops : list fop) : list fop :=
-  match n with
-  | O => []
-  | S k => match ops with
-           | [] => []
-           | o :: r => if traced o then o :: take_traced k r else o :: take_traced n r
-           end
+Definition sysc_eqb (a b : sysc) : bool :=
+  match a, b with
+  | ScWrite, ScWrite | ScPwrite, ScPwrite | ScRename, ScRename | ScUnlink, ScUnlink => true
+  | _, _ => false
   end.
 
-Definition count_traced (ops : list fop) : nat := List.length (filter traced ops).
+Definition sysc_of (o : fop) : option sysc :=
+  match o with
+  | OpCreate _ => None
+  | OpAppend _ _ => Some ScWrite
+  | OpWriteAt FMeta _ _ => Some ScWrite      (* the metadata file is written sequentially *)
+  | OpWriteAt _ _ _ => Some ScPwrite
+  | OpRename _ _ => Some ScRename
+  | OpRemove _ => Some ScUnlink
+  end.
 
-(* snapshot_all_pendding_dbs killed after [n] traced operations: the files left behind *)
-Fixpoint dflush_crash_go (x : dnode) (q : list (str * bool)) (orders : list (list str)) (n : nat)
+Definition is_sc (s : sysc) (o : fop) : bool :=
+  match sysc_of o with Some t => sysc_eqb s t | None => false end.
+
+(* the operations completed before the i-th (i >= 1) operation of kind s; all of them when there
+   are fewer than i *)
+Fixpoint take_before (s : sysc) (i : nat) (ops : list fop) : list fop :=
+  match ops with
+  | [] => []
+  | o :: r =>
+      if is_sc s o then
+        match i with
+        | O => []
+        | S O => []
+        | S k => o :: take_before s k r
+        end
+      else o :: take_before s i r
+  end.
+
+Definition count_sc (s : sysc) (ops : list fop) : nat := List.length (filter (is_sc s) ops).
+
+(* snapshot_all_pendding_dbs killed on entering its i-th call of kind s: the files left behind *)
+Fixpoint dflush_crash_go (x : dnode) (q : list (str * bool)) (orders : list (list str)) (s : sysc) (i : nat)
   : list (str * files) :=
   match q with
   | [] => dn_files x
   | (dbn, reclaim) :: rest =>
       match get_db (dn_node x) dbn with
-      | None => dflush_crash_go x rest orders n
+      | None => dflush_crash_go x rest orders s i
       | Some d =>
           let '(o, os) := match orders with o :: os => (o, os) | [] => ([], []) end in
           let '(ops, _, _) := snapshot_plan d o reclaim (files_of x dbn) (n_clock (dn_node x)) in
-          let c := count_traced ops in
-          if Nat.leb c n then dflush_crash_go (dsnapshot x dbn reclaim o) rest os (n - c)
-          else assoc_set String.eqb dbn (apply_fops (files_of x dbn) (take_traced n ops)) (dn_files x)
+          let c := count_sc s ops in
+          if Nat.ltb c i then dflush_crash_go (dsnapshot x dbn reclaim o) rest os s (i - c)
+          else assoc_set String.eqb dbn (apply_fops (files_of x dbn) (take_before s i ops)) (dn_files x)
       end
   end.
 
-Definition dflush_crash (x : dnode) (orders : list (list str)) (n : nat) : list (str * files) :=
-  dflush_crash_go (mkDN (n_set_snap (dn_node x) []) (dn_files x)) (rev (dedup_snap (n_snap (dn_node x)))) orders n.
+Definition dflush_crash (x : dnode) (orders : list (list str)) (s : sysc) (i : nat) : list (str * files) :=
+  dflush_crash_go (mkDN (n_set_snap (dn_node x) []) (dn_files x)) (rev (dedup_snap (n_snap (dn_node x)))) orders s i.
 
-Definition dflush_traced_total (x : dnode) (orders : list (list str)) : nat :=
-  (fix go (x : dnode) (q : list (str * bool)) (orders : list (list str)) : nat :=
-     match q with
-     | [] => O
-     | (dbn, reclaim) :: rest =>
-         match get_db (dn_node x) dbn with
-         | None => go x rest orders
-         | Some d =>
-             let '(o, os) := match orders with o :: os => (o, os) | [] => ([], []) end in
-             let '(ops, _, _) := snapshot_plan d o reclaim (files_of x dbn) (n_clock (dn_node x)) in
-             (count_traced ops + go (dsnapshot x dbn reclaim o) rest os)%nat
-         end
-     end) (mkDN (n_set_snap (dn_node x) []) (dn_files x)) (rev (dedup_snap (n_snap (dn_node x)))) orders.
+(* every operation of a whole flush, in order, each with its database *)
+Fixpoint dflush_plan_go (x : dnode) (q : list (str * bool)) (orders : list (list str)) : list (str * fop) :=
+  match q with
+  | [] => []
+  | (dbn, reclaim) :: rest =>
+      match get_db (dn_node x) dbn with
+      | None => dflush_plan_go x rest orders
+      | Some d =>
+          let '(o, os) := match orders with o :: os => (o, os) | [] => ([], []) end in
+          let '(ops, _, _) := snapshot_plan d o reclaim (files_of x dbn) (n_clock (dn_node x)) in
+          map (fun op => (dbn, op)) ops ++ dflush_plan_go (dsnapshot x dbn reclaim o) rest os
+      end
+  end.
+
+Definition dflush_plan (x : dnode) (orders : list (list str)) : list (str * fop) :=
+  dflush_plan_go (mkDN (n_set_snap (dn_node x) []) (dn_files x)) (rev (dedup_snap (n_snap (dn_node x)))) orders.
